@@ -2,6 +2,7 @@ package props
 
 import (
 	"fmt"
+	"strings"
 
 	j "github.com/mfcochauxlaberge/jsonapi"
 
@@ -29,6 +30,17 @@ func c03Docs(x *mc.Exec) {
 	ident := c.DataKind == "identifier" || c.DataKind == "identifiers"
 	if rule, msg, _ := ValidateDoc(out, c.Doc.PrePath, ident); rule != "" {
 		x.Fail("C03:docs:"+rule, "%s: %s\n  output: %.600s", c.Desc, msg, out)
+	}
+	// what a marshal returned stays what it was while the next documents are marshaled (the
+	// payload of one response is still being written while the next request is served)
+	saved := string(out)
+	other := &j.Document{PrePath: "https://other", Errors: []j.Error{j.NewErrNotFound(), j.NewErrBadRequest(strings.Repeat("t", 300), strings.Repeat("d", 900))}}
+	for i := 0; i < 2; i++ {
+		_, _ = j.MarshalDocument(other, c.URL)
+	}
+	x.R.Add("transitions", 2)
+	if string(out) != saved {
+		x.Fail("C03:docs:payload-overwritten", "%s: the bytes returned by MarshalDocument changed while two other documents were marshaled:\n  was: %.300s\n  now: %.300s", c.Desc, saved, out)
 	}
 }
 
@@ -186,7 +198,7 @@ func init() {
 	}
 	Register(&Prop{
 		ID:          "C03",
-		Rule:        "Engine A: the complete product 19 primary-data kinds (nil, soft/wrapped/escape-needing/ID-less resource, resources with every kind at its extremes, Resources/SoftCollection/WrapperCollection of 0..3, Identifier, Identifiers of 0/2) x 5 included lists x 4 metas x 3 error lists x 6 path prefixes (with / without / with several trailing slashes) x 3 field selections x 2 relationship-data requests; every successful marshal is parsed by an independent JSON:API structure validator (jsonapi member, self link, data xor errors, included only with data, resource-object type/id/self link = prefix+type+id, relationship links and data shape). Engine B: for 9 primary-data implementations (incl. collections of 12 members in descending / scrambled id order), ALL sequences (depth <= 4 quick / 6 thorough) of Include over 9 resources colliding with primary data, with each other (same pair as a different object / implementation) or with nothing, interleaved with the primary data gaining a resource (collection Add / Data assigned late); after every Include the marshaled document is validated and no type/ID pair may appear twice. Non-trivial = distinct successful output",
+		Rule:        "Engine A: the complete product 19 primary-data kinds (nil, soft/wrapped/escape-needing/ID-less resource, resources with every kind at its extremes, Resources/SoftCollection/WrapperCollection of 0..3, Identifier, Identifiers of 0/2) x 5 included lists x 4 metas x 3 error lists x 6 path prefixes (with / without / with several trailing slashes) x 3 field selections x 2 relationship-data requests; every successful marshal is parsed by an independent JSON:API structure validator (jsonapi member, self link, data xor errors, included only with data, resource-object type/id/self link = prefix+type+id, relationship links and data shape); the returned bytes must still be the same after two other documents were marshaled. Engine B: for 9 primary-data implementations (incl. collections of 12 members in descending / scrambled id order), ALL sequences (depth <= 4 quick / 6 thorough) of Include over 9 resources colliding with primary data, with each other (same pair as a different object / implementation) or with nothing, interleaved with the primary data gaining a resource (collection Add / Data assigned late); after every Include the marshaled document is validated and no type/ID pair may appear twice. Non-trivial = distinct successful output",
 		Assumptions: []string{"non-empty type names; a resource without ID must still carry a string id member, but the text of its links is not judged beyond the library's own convention (bare prefix)", "uniqueness applies to resource objects (an identifier in data plus the full resource in included is fine)"},
 		Harnesses:   hs,
 	})
